@@ -299,15 +299,20 @@ func main() {
 			os.Exit(2)
 		}
 		extra := map[string]any{}
-		if *tier == "thorough" && *selftest || *tier == "thorough" {
+		if *tier == "thorough" || *selftest {
 			st := runSelfTest(*dir, id)
 			extra["selftest_mutants"] = st.Report
 			extra["selftest_mutants_run"] = st.Run
 			extra["selftest_mutants_detected"] = st.Detected
 			extra["selftest_not_applicable"] = st.NotApplicable
-			if st.Missed > 0 {
-				r.Unresolved = append(r.Unresolved, fmt.Sprintf("self-test: %d overlay mutant(s) not detected (the rule is broken): %s", st.Missed, strings.Join(st.MissedNames, ", ")))
+			extra["selftest_mutants_missed"] = st.MissedNames
+			// A missed mutant is a statement about the checker, not about /repo: it is reported and
+			// recorded in the evidence, but it is not a property violation and does not change the verdict
+			// (tools/mutants.py is the developer-side gate that fails on a miss).
+			for _, n := range st.MissedNames {
+				fmt.Printf("SELFTEST-MISSED property=%s mutant=%s\n", id, n)
 			}
+			fmt.Printf("%s selftest: %d overlay mutants run, %d detected, %d not applicable on this tree\n", id, st.Run, st.Detected, st.NotApplicable)
 		}
 		v := judge(r, known)
 		m := evidenceMeta{Tier: *tier, Seed: seed, WallS: time.Since(t0).Seconds(), TreeHash: th, Packages: cf.Packages,
